@@ -176,14 +176,26 @@ def rows_of(run_id, events):
             r = {"e": "step", "t": e["t"], "i": e["i"], "op": op, "g": g, "first": first, "done": done,
                  "x": "-" if env_step else e.get("sub", "-"), "flags": flag_names(e["flags"]), "fin": fin,
                  "latch": bool(e["latch"]), "tag": tag_rec(e["tag"]), "sameino": bool(e.get("tag_same_inode")),
-                 "changed": bool(e.get("tag_changed")), "oldfd": e.get("tag_oldfd") is not None}
+                 "changed": bool(e.get("tag_changed")), "oldfd": e.get("tag_oldfd") is not None, "wait": False, "sameq": True}
             o = {"t": e["t"], "i": e["i"], "a": e["a"], "x": e["x"], "op": op, "g": g, "stage": e.get("stage", 0),
                  "flags": r["flags"], "fin": fin, "tag": r["tag"], "out": e["out"], "nowait": bool(e.get("nowait")),
                  "extra": bool(e.get("extra")), "exp": e.get("exp", "-"), "tag_raw": e["tag"], "tag_ino": e.get("tag_ino"),
                  "tag_oldfd": e.get("tag_oldfd")}
             if op == "Q":
                 qk = e.get("qkind")
-                q = 0 if qk in ("zero", "nohdr", "neg") else FUTURE if qk == "future" else abs_index(T, int(e["q"]))
+                if qk == "wait":
+                    # the real client: the instant it was created with is what its first poll carried, between the two
+                    # clock readings taken around ProvisionQuery::new; every poll must carry exactly that
+                    polls = e.get("polls", [])
+                    lo, hi = int(e["created_between"][0]), int(e["created_between"][1])
+                    t0 = polls[0]["tick"] if polls else None
+                    ok0 = t0 is not None and t0.lstrip("-").isdigit() and lo <= int(t0) <= hi
+                    e = dict(e, q=str(t0 if ok0 else hi))
+                    r["wait"] = True
+                    r["sameq"] = bool(ok0 and all(p_["tick"] == t0 for p_ in polls))
+                    o["polls"] = [[p_["tick"], p_["notify"]] for p_ in polls]
+                qv = int(e["q"])     # by value: a later poll of a waiting query repeats the tick of the first
+                q = 0 if qk in ("zero", "nohdr", "neg") or qv <= 0 else FUTURE if qk == "future" or qv > T[-1] + 10 ** 12 else abs_index(T, qv)
                 r["q"] = q
                 o["q"] = q
                 o["qkind"] = qk
@@ -209,7 +221,9 @@ def schedule_of(obs, rows):
         if o["a"] in ("tick", "latch"):
             steps.append({"t": "env", "i": 0, "a": o["a"], "x": o["x"]})
         elif o.get("stage") == 1:
-            s_ = {"t": o["t"], "i": o["i"], "a": "ask" if o["a"] == "ask" else START_OF.get(o["op"], "cont"), "x": o["x"]}
+            s_ = {"t": o["t"], "i": o["i"], "a": o["a"] if o["a"] in ("ask", "waitq", "wpoll") else START_OF.get(o["op"], "cont"), "x": o["x"]}
+            if o["a"] == "waitq":
+                s_["polls"] = 4
             if o["op"] == "Q":
                 s_["x"] = "future" if o["q"] == FUTURE else "zero" if o["q"] == 0 else "past"
                 s_["q"] = {"q": o["q"]}
@@ -228,7 +242,10 @@ def compare(hist, obs, with_tag=True):
     aligned: the comparison stops there (the run is still decided against the statement)."""
     mism = []
     steps = [s for s in hist if s["a"] not in ("wopen", "wwrite", "wrename", "qchan")]
-    answers = {s["i"]: s["q"] for s in hist if s["a"] == "qchan"}
+    answers = {}          # per query, the expected answers of its polls in order
+    for s in hist:
+        if s["a"] == "qchan":
+            answers.setdefault(s["i"], []).append(s["q"])
     ob = [o for o in obs if o["a"] != "tagobs" and not o.get("extra")]
     for k, (s, o) in enumerate(zip(steps, ob)):
         if s["a"] != o["a"] or s["t"] != o["t"] or s["i"] != o["i"]:
@@ -242,8 +259,8 @@ def compare(hist, obs, with_tag=True):
             mism.append((k, "finished_tick", s["fin"], o["fin"]))
         if with_tag and (s["tag"]["k"] != o["tag"]["k"] or sorted(s["tag"]["n"]) != sorted(o["tag"]["n"])):
             mism.append((k, "status.tag", s["tag"], o["tag"]))
-        if o.get("op") == "Q" and "finished" in o and o["i"] in answers:
-            want = answers[o["i"]]
+        if o.get("op") == "Q" and "finished" in o and answers.get(o["i"]):
+            want = answers[o["i"]].pop(0)
             if want["finished"] != o["finished"]:
                 mism.append((k, "finished", want["finished"], o["finished"]))
             if sorted(want["names"]) != sorted(o["names"]):
@@ -303,6 +320,8 @@ def signature(prop, rows, race_writers=0):
         return {"kind": "premature-finished"}
     if prop == "TagInPlace":
         return {"kind": "tag-modified-in-place"}
+    if prop == "WaitQueryInstant":
+        return {"kind": "waiting-query-instant-not-constant"}
     if prop == "TagVanished":
         return {"kind": "tag-removed-before-replacement"}
     if prop in ("TagAtomic", "TagRenameOnly"):
@@ -364,6 +383,28 @@ def text_histories():
                 st += [tick] + whole(second, "upd") + ask(1) + ask(4)
             st += [tick] + whole("kk", "reset") + ask(1) + whole("kk", "tstate") + ask(1) + [tick] + whole("kk", "upd") + ask(1)
             out.append(st)
+    return out
+
+
+def wait_histories():
+    """directed schedules for the waiting client (`--status --wait`): the real ProvisionQuery against the real listener,
+    several polls, the key keeper not serving the notification.  A stale finish (by deadline with a subsystem missing, or
+    by all three ready) lies before the instant the query is created with; nothing finished; channel latched."""
+    sub = {"rd": "R", "ls": "L", "kk": "K"}
+
+    def whole(t, a):
+        return [{"t": t, "i": 0, "a": a, "x": sub[t] if a != "tstate" else "-"}, {"t": t, "i": 0, "a": "drain", "x": "-"}]
+    tick = {"t": "env", "i": 0, "a": "tick", "x": "-"}
+
+    def waitq(i, polls=4):
+        return [{"t": "q", "i": i, "a": "waitq", "x": "-", "polls": polls}]
+    ask = [{"t": "q", "i": 7, "a": "ask", "x": "past", "q": {"q": 1}}]
+    out = []
+    out.append(whole("ls", "upd") + whole("rd", "upd") + [tick] + whole("kk", "tstate") + [tick] + waitq(1) + ask + [tick] + waitq(2, 2))
+    out.append(whole("ls", "upd") + whole("kk", "upd") + [tick] + whole("kk", "tstate") + [tick] + waitq(1) + ask)
+    out.append(whole("ls", "upd") + whole("rd", "upd") + whole("kk", "upd") + [tick, tick] + waitq(1) + ask)
+    out.append(whole("ls", "upd") + [tick] + waitq(1, 3) + whole("rd", "upd") + waitq(2, 2))
+    out.append(whole("ls", "upd") + [{"t": "env", "i": 0, "a": "latch", "x": "on"}, tick] + waitq(1, 2))
     return out
 
 
@@ -443,7 +484,7 @@ def run(c):
 
     # 1. the design, exhaustively -----------------------------------------------------------------------------------
     acts = ["Tick", "SetLatch", "Upd", "Reset", "TState", "SetFin", "WState", "QFin", "QState", "QChan"]
-    c.tlc("Provision", "Provision_q.cfg", workers=8, required_actions=acts, timeout=600)
+    c.tlc("Provision", "Provision_q.cfg", workers=8, required_actions=acts + ["WPoll"], timeout=900)
     c.tlc("Provision", "Provision_tag.cfg", workers=8, required_actions=["Upd", "TState", "SetFin", "WState", "FileStep"],
           timeout=600)
     if thorough:
@@ -505,7 +546,7 @@ def run(c):
         runs.append(spec)
         meta[rid] = {"kind": "auto", "spec": spec}
     # 4b. I->S, directed: a readiness report overtakes between any two consecutive messages of another task
-    probes = tag_histories() + text_histories() + overtake_probes()
+    probes = tag_histories() + text_histories() + wait_histories() + overtake_probes()
     for n, st in enumerate(probes):
         rid = "probe%d" % n
         runs.append({"id": rid, "mode": "replay", "steps": st})
@@ -620,6 +661,9 @@ def run(c):
             for o in obs2:
                 if "tag_raw" in o and (not hist_tag or hist_tag[-1][:2] != [o["tag_ino"], o["tag_raw"]] or o.get("tag_oldfd")):
                     hist_tag.append([o["tag_ino"], o["tag_raw"], o.get("tag_oldfd")])
+            polls = {"q%s" % o["i"]: o["polls"] for o in obs2 if "polls" in o}
+            if polls:
+                gates["polls [tick header, notify] of the waiting queries"] = polls
             what = ("C16 %s fails on the real code, schedule [%s]; messages per task %s; answers %s%s%s"
                     % (prop, label(art["steps"]), gates, answers, (" status.tag seen by a reader: %r" % tags[0]) if tags else "",
                        (" status.tag after the steps [inode, content, old descriptor]: %r" % hist_tag[:6]) if prop == "TagInPlace" else ""))
